@@ -1,0 +1,1 @@
+//! Hooks owned by property C05 (feature `verif-hooks`).
